@@ -443,9 +443,22 @@ def check_c17(prop, tier, replay):
     ck = Check(prop, tier)
     build_harness()
     pool = ThreadPoolExecutor(max_workers=1)
-    fut = pool.submit(lambda: tlc_mc("ManagerMC.tla", "MGR_mc.cfg", 6, 1200))
+    def mgr_models():
+        res = [tlc_mc("ManagerMC.tla", "MGR_mc.cfg", 6, 1200), tlc_mc("ManagerReg.tla", "MGR_reg.cfg", 6, 1200)]
+        dev = tlc_mc("ManagerReg.tla", "MGR_snapshot.cfg", 4, 600, extra=["-deadlock"])     # the named deviation must be refuted
+        return res, dev
+    fut = pool.submit(mgr_models)
     d = scratch("mgr")
     methods = {}
+    # ---- the registry under calls that arrive while another table's create / close is in progress (ManagerReg / ManagerTrace)
+    regout = os.path.join(d, "mgrreg.ndjson")
+    summ = vlib.vh(["mgrreg", "--from", vlib.seed() * 100000 + 1, "--count", 400 if tier == "quick" else 6000, "--out", regout], timeout=1800)
+    trr = tlc_trace("ManagerTrace.tla", "ManagerTrace.cfg", regout, timeout=1800, parts=8 if tier == "quick" else 16, by_trace=True)
+    ck.cov["trace_lines"] += trr["lines"]
+    ck.cov["traces_validated_against_impl"] += summ.get("scenarios", 0)
+    ck.cov.setdefault("pools", []).append({"pool": "registry (vh mgrreg)", "scenarios": summ.get("scenarios", 0), "lines": trr["lines"],
+                                           "calls_made_inside_or_during_another_tables_create_or_close": summ.get("nested", 0)})
+    ck.route(["C17_"], trr, regout, "vh mgrreg")
     for name in MANAGER_POOLS:
         path, summ, crashed = run_pool(name, tier, d, via="manager")
         tr = tlc_trace("TableTrace.tla", "TableTrace.cfg", path, timeout=3000, parts=14, by_trace=True)
@@ -465,9 +478,15 @@ def check_c17(prop, tier, replay):
                     methods[m] = methods.get(m, 0) + 1
         ck.cov["samples"] += sample_lines(path)[:1]
     ck.cov["manager_methods_exercised"] = methods
-    r = fut.result()
-    require_mc(r, "ManagerMC")
-    ck.add_model(r, "registry model: forwarding, isolation, not-found")
+    rs, dev = fut.result()
+    for r in rs:
+        require_mc(r, r["spec"])
+        ck.add_model(r, "registry model: forwarding, isolation, not-found" if r["spec"] == "ManagerMC.tla" else
+                     "registry at Begin / End granularity: a live table is found, a closed / released / never created one is not, whatever begins and ends in between")
+    if not dev.get("violated"):
+        raise Inconclusive("ManagerReg with SnapshotDelete = TRUE should violate I_LiveFound (the model has lost its sensitivity)")
+    ck.cov["models"].append({"what": "named deviation SnapshotDelete (close publishes the look-up snapshot minus the id): refuted by TLC as expected",
+                             "spec": "ManagerReg.tla", "cfg": "MGR_snapshot.cfg", "violated": dev["violated"]})
     ck.assumptions = ["the manager builds its own engine with the native backend, so backend-call clauses (spy lines) are not available in this mode",
                       "known findings of the engine itself are matched by their signatures exactly as in the direct pools"]
     return ck.finish({"explanation": "traces_validated_against_impl = scenarios driven through the Manager API next to bystander tables"})
